@@ -120,7 +120,7 @@ import "example.com/scion-time/net/ntske"
 //@ pred cunit(pkt) = (4+mpad4(len(pkt.Cookies[0].Cookie)))
 //@ pred punit(pkt) = (4+mpad4(len(pkt.CookiePlaceholders[0].Cookie)))
 //@ pred ntsLen(pkt) = (52+mpad4(len(pkt.UniqueID.ID))+mathint(len(pkt.Cookies))*cunit(pkt)+mathint(len(pkt.CookiePlaceholders))*punit(pkt)+40+mpad4(len(pkt.Auth.PlainText)))
-//@ pred ntsShape(pkt) = 32 <= len(pkt.UniqueID.ID) && len(pkt.UniqueID.ID) <= 256 && len(pkt.Cookies) <= 64 && len(pkt.CookiePlaceholders) <= 64 && len(pkt.Auth.PlainText) <= 16384 &&
+//@ pred ntsShape(pkt) = 32 <= len(pkt.UniqueID.ID) && len(pkt.UniqueID.ID) <= 1024 && len(pkt.Cookies) <= 64 && len(pkt.CookiePlaceholders) <= 64 && len(pkt.Auth.PlainText) <= 16384 &&
 //@ |   (len(pkt.Auth.Key) == 32 || len(pkt.Auth.Key) == 64) &&
 //@ |   forall(i, 0, len(pkt.Cookies), len(pkt.Cookies[i].Cookie) == len(pkt.Cookies[0].Cookie) && len(pkt.Cookies[i].Cookie) <= 1024) &&
 //@ |   forall(i, 0, len(pkt.CookiePlaceholders), len(pkt.CookiePlaceholders[i].Cookie) == len(pkt.CookiePlaceholders[0].Cookie) && len(pkt.CookiePlaceholders[i].Cookie) <= 1024)
@@ -251,3 +251,23 @@ func verifServerReplyMany(cookies [][]byte, key []byte, uniqueid []byte) []byte 
 //@   requires 8 <= len(cookies) && len(cookies) <= 64 && len(key) == 32 && len(uniqueid) == 32
 //@   requires forall(q, 0, len(cookies), len(cookies[q]) == 124)
 //@   ensures size: len(result) <= 1024
+
+// The server's reply to an accepted request: the listeners decode and authenticate the request and then build and
+// encode the reply from the request's own unique identifier (core/server/server_ip.go, server_scion.go). Whatever
+// request passes DecodePacket and ProcessRequest, building the reply must not crash the listener.
+func verifServerReplyToRequest(b []byte, c2s []byte, req *Packet, cookie []byte, s2c []byte) []byte {
+	if DecodePacket(req, b) != nil {
+		return nil
+	}
+	if ProcessRequest(b, c2s, req) != nil {
+		return nil
+	}
+	buf := make([]byte, ntpPacketLen)
+	pkt := NewResponsePacket([][]byte{cookie}, s2c, req.UniqueID.ID)
+	EncodePacket(&buf, &pkt)
+	return buf
+}
+
+//@ func verifServerReplyToRequest
+//@   noframe
+//@   requires req != nil && len(cookie) == 124 && len(s2c) == 32 && len(b) <= 512
